@@ -1,4 +1,5 @@
 import Generated.Funcs
+import SlimProps.BridgeSem.PrintAxioms
 import SlimProps.BridgeSem.Common
 import SlimProps.BridgeSem.Extern
 import SlimModel.Legacy
@@ -10,15 +11,15 @@ import SlimModel.Legacy
   package array: `*array.Array32`, `*array.U16` = `U16{Base{Array32, EltEncoder}}` with promoted fields;
   the callee `(*U16).Get` and `bmBit` of array/int.go, array/base.go are translated with them):
 
-    `bmhas_sem`                  WL.bmhas bm i = some (Legacy.bmhas bm i)                     (bitmap.SafeGet1 == 1)
-    `U16_Get_sem`                WL.U16.Get (absU16 a) idx = (okOpt (Legacy.u16Get a idx)).map getRes
-    `getStepBefore000510_sem`    WL.getStepBefore000510 (absU16 steps) nid
+    `bmhas_sem`                  Generated.WL.bmhas bm i = some (Legacy.bmhas bm i)                     (bitmap.SafeGet1 == 1)
+    `U16_Get_sem`                Generated.WL.U16.Get (absU16 a) idx = (okOpt (Legacy.u16Get a idx)).map getRes
+    `getStepBefore000510_sem`    Generated.WL.getStepBefore000510 (absU16 steps) nid
                                    = (okOpt (Legacy.getStep steps nid)).map (4 * ·)
                                  (presence test, `stp--` in `uint16` — a stored 0 wraps to 65535 —, the step
                                  rebase from half-bytes INCLUDING the label to bits EXCLUDING it: the Go
                                  function returns bits, the model half-bytes; the model's `none` branch after
                                  a positive `bmhas` is shown unreachable)
-    `getBM16Child_sem`           WL.getBM16Child (absArr ch) idx = okOpt (Legacy.getBM16Child ch idx)
+    `getBM16Child_sem`           Generated.WL.getBM16Child (absArr ch) idx = okOpt (Legacy.getBM16Child ch idx)
                                  (children bitmap decoding for BOTH encodings: `Flags & ArrayFlagIsBitmap == 0`
                                  → low 16 bits of the little-endian uint32 element `Elts[eltIdx*4:]`;
                                  otherwise `bitmap.Getw(BMElts.Words, eltIdx, 16)`; then `<< 1`)
@@ -84,8 +85,8 @@ theorem lit_tests :
 /-! ### `bmhas` = `bitmap.SafeGet1(bm, i) == 1` -/
 
 theorem bmhas_sem (bm : List Nat) (i : Nat) (hi : i < 2 ^ 31) (hlen : bm.length < 2 ^ 31) :
-    WL.bmhas bm i = some (Legacy.bmhas bm i) := by
-  unfold WL.bmhas Go.safeGet1 Legacy.bmhas
+    Generated.WL.bmhas bm i = some (Legacy.bmhas bm i) := by
+  unfold Generated.WL.bmhas Go.safeGet1 Legacy.bmhas
   have h1 : Go.sar 32 i 6 = i / 64 := by go_simp
   have h2 : Go.and i 63 = i % 64 := by go_simp
   have h3 : i / 64 < 2 ^ (32 - 1) := by omega
@@ -139,8 +140,8 @@ theorem uintLEChk2 (bs : Bytes) (st : Nat) (hst : st ≤ bs.length) :
       rw [e0]
 
 theorem U16_Get_sem (a : Array32Msg) (idx : Nat) (hidx : idx < 2 ^ 31) (hfit : U16GetFits a idx) :
-    WL.U16.Get (absU16 a) idx = (okOpt (Legacy.u16Get a idx)).map getRes := by
-  unfold WL.U16.Get WL.bmBit Legacy.u16Get
+    Generated.WL.U16.Get (absU16 a) idx = (okOpt (Legacy.u16Get a idx)).map getRes := by
+  unfold Generated.WL.U16.Get Generated.WL.bmBit Legacy.u16Get
   have h1 : Go.sar 32 idx 6 = idx / 64 := by go_simp
   have h2 : Go.and idx 63 = idx % 64 := by go_simp
   have h3 : idx / 64 < 2 ^ (32 - 1) := by omega
@@ -213,9 +214,9 @@ theorem u16Get_lt (a : Array32Msg) (idx v : Nat) (h : Legacy.u16Get a idx = .ok 
 
 theorem getStepBefore000510_sem (steps : Array32Msg) (nid : Nat) (hnid : nid < 2 ^ 31)
     (hlen : steps.bitmaps.length < 2 ^ 31) (hfit : U16GetFits steps nid) :
-    WL.getStepBefore000510 (absU16 steps) nid = (okOpt (Legacy.getStep steps nid)).map (fun h => 4 * h) := by
-  unfold WL.getStepBefore000510 Legacy.getStep
-  have hb : WL.bmhas (absU16 steps).Base.Array32.Bitmaps nid = some (Legacy.bmhas steps.bitmaps nid) :=
+    Generated.WL.getStepBefore000510 (absU16 steps) nid = (okOpt (Legacy.getStep steps nid)).map (fun h => 4 * h) := by
+  unfold Generated.WL.getStepBefore000510 Legacy.getStep
+  have hb : Generated.WL.bmhas (absU16 steps).Base.Array32.Bitmaps nid = some (Legacy.bmhas steps.bitmaps nid) :=
     bmhas_sem steps.bitmaps nid hnid hlen
   rw [hb, U16_Get_sem steps nid hnid hfit]
   simp only [Option.bind_eq_bind, Option.bind_some, Option.pure_def]
@@ -302,8 +303,8 @@ theorem uintLEChk4_none (bs : Bytes) (st : Nat) (h4 : ¬ st + 4 ≤ bs.length) :
   rw [List.length_drop, natBytes_length, if_neg (by omega)]
 
 theorem getBM16Child_sem (ch : Array32Msg) (idx : Nat) (hidx : idx < 2 ^ 31) (hfit : BM16Fits ch idx) :
-    WL.getBM16Child (absArr ch) idx = okOpt (Legacy.getBM16Child ch idx) := by
-  unfold WL.getBM16Child Legacy.getBM16Child
+    Generated.WL.getBM16Child (absArr ch) idx = okOpt (Legacy.getBM16Child ch idx) := by
+  unfold Generated.WL.getBM16Child Legacy.getBM16Child
   have hr := rank64_sem { words := ch.bitmaps, rankIndex := ch.offsets } idx hfit.1 hidx
   simp only at hr
   have hf2 := hfit.2
@@ -408,19 +409,19 @@ example : BM16Fits exChNew 0 := by
   have h' : okOpt (Legacy.arrRank exChNew 0) = some (e, b) := by rw [h]; rfl
   have h2 : okOpt (Legacy.arrRank exChNew 0) = some (0, true) := by decide
   rw [h2] at h'; cases h'; decide
-example : WL.getStepBefore000510 (absU16 exSteps) 0 = some 8 := by decide
+example : Generated.WL.getStepBefore000510 (absU16 exSteps) 0 = some 8 := by decide
 example : okOpt (Legacy.getStep exSteps 0) = some 2 := by decide
-example : WL.getStepBefore000510 (absU16 exSteps) 1 = some 0 := by decide
-example : WL.getBM16Child (absArr exChOld) 0 = some 10 := by decide
-example : WL.getBM16Child (absArr exChNew) 0 = some 10 := by decide
+example : Generated.WL.getStepBefore000510 (absU16 exSteps) 1 = some 0 := by decide
+example : Generated.WL.getBM16Child (absArr exChOld) 0 = some 10 := by decide
+example : Generated.WL.getBM16Child (absArr exChNew) 0 = some 10 := by decide
 example : okOpt (Legacy.getBM16Child exChNew 0) = some 10 := by decide
 /-- a panic: the element lies beyond `Elts` -/
-example : WL.getBM16Child (absArr { exChOld with elts := [5, 0] }) 0 = none := by decide
-example : WL.bmhas [5] 2 = some true ∧ WL.bmhas [5] 1 = some false ∧ WL.bmhas [5] 64 = some false := by decide
+example : Generated.WL.getBM16Child (absArr { exChOld with elts := [5, 0] }) 0 = none := by decide
+example : Generated.WL.bmhas [5] 2 = some true ∧ Generated.WL.bmhas [5] 1 = some false ∧ Generated.WL.bmhas [5] 64 = some false := by decide
 
 end BridgeSem
 
-#print axioms BridgeSem.bmhas_sem
-#print axioms BridgeSem.U16_Get_sem
-#print axioms BridgeSem.getStepBefore000510_sem
-#print axioms BridgeSem.getBM16Child_sem
+#print_axioms? BridgeSem.bmhas_sem
+#print_axioms? BridgeSem.U16_Get_sem
+#print_axioms? BridgeSem.getStepBefore000510_sem
+#print_axioms? BridgeSem.getBM16Child_sem
